@@ -57,6 +57,17 @@ def base_file(rng, D, C):
                 out.append(c + "x" * rng.pick([700, 3000, 6000]))
             out.append("k%d%sv%d %s%s" % (k, d, k, c, "t" * rng.pick([10, 2000])) if D else "k%d" % k)
         return "comment-volume", "\n".join(out) + "\n"
+    if r < 0.615:
+        # sections that are opened again later, with other sections in between: the merge walks such a base group by group
+        d = D[0] if D else " "
+        secs = rng.subset(["A", "B", "C", "D"], 2, 4)
+        out = ["g%sv" % d] if rng.chance(0.3) else []
+        seq = secs + [rng.pick(secs) for _ in range(rng.randint(1, 4))]
+        for n_, s_ in enumerate(seq):
+            out.append("[%s]" % s_)
+            for k_ in rng.subset(["k", "key", "x", "y%d" % n_], 1, 3):
+                out.append("%s%sv%d" % (k_, d, n_))
+        return "reopened-sections", "\n".join(out) + "\n"
     if r < 0.66:
         # counts just past allocation steps: many sections, many keys in one section, many group-less keys
         d = D[0] if D else " "
